@@ -11,7 +11,9 @@
 From Coq Require Import ZArith List Bool.
 From DV Require Import Model.PyPrims Model.C12Model Model.C12Spec2 Proofs.C12Proofs Proofs.C12IsoTop Proofs.C12Examples
   Proofs.C12AnnTop Proofs.C12FunTop Proofs.C12ImageTop Proofs.C12Examples2 Model.C12Shallow Proofs.C12ShallowTop
-  Model.C12Spec3 Proofs.C12IsoFullTop.
+  Model.C12Spec3 Proofs.C12IsoFullTop
+  Model.C12Spec4 Proofs.C12Strict Proofs.C12StrictTop Proofs.C12Shared Proofs.C12StrictCor Proofs.C12StrictEx Proofs.C12Tuple
+  Proofs.C12IsoFull Proofs.C12ResultHeap.
 Import ListNotations.
 Open Scope Z_scope.
 
@@ -538,3 +540,181 @@ Theorem tuple_unchanged_same_content :
     /\ body_of s' t' = body_of (init_st false seeded_tuple_heap []) 4.
 Proof. exact tuple_unchanged_same_content_l. Qed.
 Print Assumptions tuple_unchanged_same_content.
+
+(* ==== sixth wave: privacy hypothesis, strict isomorphism, sharing as an iff, tuples ========================
+   Exceptions 5(b) and 5(c) of deepcopy_isomorphism are closed under an EXECUTABLE privacy hypothesis
+   (Model/C12Spec4.v), evaluated on every dumped case and counted by the harness (counts strict-isomorphism-hypotheses):
+     private_region_ok h seeds reg root : reg contains every memo seed and every atomic object, is closed under
+         references, an object OUTSIDE reg refers into reg only at a seed, an atomic object or a tuple of immutable
+         values (CPython's singleton `()`), and the root is outside reg or itself a seed / atomic object;
+         private_ok h seeds root takes reg := seeded_region h seeds = everything the seeds and atomic objects reach
+         (closure is checked by the predicate itself, no property of the traversal is assumed);
+     conts_private_ok h : the `_item_list` / `_item_set` of an owned annotation set is referred to only by the
+         attribute `_item_list` / `_item_set` of an AnnotationSet object;
+     root_ok4 h root : the root is not an owned annotation set or one of its containers.
+   The hypothesis is NECESSARY (two _refuted witnesses below, replayed on the library) and it fails on real
+   inputs exactly when something inside the shared namespace refers back into the copied structure (a taxon
+   attribute or a namespace annotation bound to a node / edge / sequence of the source): then source and copy
+   share that object through the namespace - the honest domain of "shares exactly the namespace and its taxa". *)
+
+(* deepcopy_isomorphism_strict: under the privacy hypothesis the correspondence iso_rel is a BIJECTION between what
+   the source root reaches and what the copy reaches (root |-> copy, onto, total except an EMPTY owned annotation
+   set - deepcopy_raw_bijection_refuted -, injective) and SINGLE-VALUED without exception other than tuples
+   (deepcopy_tuple_single_valued_refuted); what corresponds to itself is EXACTLY the region (non-tuples);
+   no recorded source is atomic, none whose copy is reached is an owned container; and the predecessor lemma:
+   every fresh object b the copy reaches, other than the copy itself, is referred to by a fresh object m the copy
+   reaches, m is the image of am, and am refers to the source a of b. *)
+Theorem deepcopy_isomorphism_strict : forall nf h seeds reg root fuel s' y,
+  wf_heap h seeds = true -> wf_heap2 h = true -> wf_heap3 h = true -> wf_heap3s h = true -> wf_heap4 h = true ->
+  root_seeds_ok h seeds root = true -> memz root (owned_list h) = false ->
+  private_region_ok h seeds reg root = true -> conts_private_ok h = true -> root_ok4 h root = true ->
+  0 <= root < hlen h -> (length h < fuel)%nat ->
+  run_seeded nf fuel h seeds root = Ok (s', R y) ->
+  iso_rel h s' root y root y
+  /\ (forall b, reach (sh s') y b -> exists a, iso_rel h s' root y a b)
+  /\ (forall a, reach h root a -> (exists b, iso_rel h s' root y a b) \/ empty_annset_part h a)
+  /\ (forall a a' b, iso_rel h s' root y a b -> iso_rel h s' root y a' b -> a = a')
+  /\ (forall a b b', iso_rel h s' root y a b -> iso_rel h s' root y a b' -> b = b' \/ kind_at h a = Some KTuple)
+  /\ (forall a b, iso_rel h s' root y a b -> kind_at h a <> Some KTuple -> (a = b <-> In a reg))
+  /\ (forall a b, In (a, b) (sc s') -> is_atomic h a = false /\ (reach (sh s') y b -> ~ In a (owned_conts h)))
+  /\ (forall b, reach (sh s') y b -> hlen h <= b -> b = y \/
+        exists a am m, iso_rel h s' root y a b /\ iso_rel h s' root y am m /\ hlen h <= m
+                       /\ edge h am a /\ edge (sh s') m b).
+Proof. exact deepcopy_isomorphism_strict_l. Qed.
+Print Assumptions deepcopy_isomorphism_strict.
+
+(* the same for the two routes of the model with the executable region (wf_heap5 = private_ok && conts_private_ok
+   && root_ok4; route_seeds h RDeep = [], route_seeds h (RScoped ns) = the namespace and its taxa) *)
+Theorem route_isomorphism_strict : forall nf h root r fuel s' y,
+  (r = RDeep \/ exists ns, r = RScoped ns) ->
+  wf_heap h (route_seeds h r) = true -> wf_heap2 h = true -> wf_heap3 h = true -> wf_heap3s h = true -> wf_heap4 h = true ->
+  root_seeds_ok h (route_seeds h r) root = true -> memz root (owned_list h) = false ->
+  wf_heap5 h (route_seeds h r) root = true ->
+  0 <= root < hlen h -> (length h < fuel)%nat ->
+  run nf fuel h root r = Ok (s', R y) ->
+  (forall b, reach (sh s') y b -> exists a, iso_rel h s' root y a b)
+  /\ (forall a, reach h root a -> (exists b, iso_rel h s' root y a b) \/ empty_annset_part h a)
+  /\ (forall a a' b, iso_rel h s' root y a b -> iso_rel h s' root y a' b -> a = a')
+  /\ (forall a b b', iso_rel h s' root y a b -> iso_rel h s' root y a b' -> b = b' \/ kind_at h a = Some KTuple)
+  /\ (forall a b, iso_rel h s' root y a b -> kind_at h a <> Some KTuple ->
+        (a = b <-> In a (seeded_region h (route_seeds h r)))).
+Proof. exact route_isomorphism_strict_l. Qed.
+Print Assumptions route_isomorphism_strict.
+
+(* the privacy hypothesis holds on the example heap of hypotheses_satisfiable, for both routes; the region of the
+   scoped copy is {namespace 1, its _taxa list 2, taxon 7}, that of the deep copy is empty *)
+Theorem privacy_hypothesis_satisfiable :
+  wf_heap5 ex_heap [] 0 = true /\ wf_heap5 ex_heap (ns_seeds ex_heap 1) 0 = true
+  /\ seeded_region ex_heap (ns_seeds ex_heap 1) = [7; 2; 1] /\ seeded_region ex_heap [] = [].
+Proof. exact ex_wf5. Qed.
+Print Assumptions privacy_hypothesis_satisfiable.
+
+(* "single-valued without the privacy hypothesis" is REFUTED, part (b): a list that the tree AND a taxon refer to
+   satisfies every other hypothesis; the namespace-scoped copy copies it (4 |-> 6, reached by the copy) and also
+   reaches the original 4 through the shared taxon.  Replayed on the implementation (t.x = L; ns[0].x = L;
+   c = t.clone(1): c.x is not L, c.taxon_namespace[0].x is L): same.  Not a violation of the property text: the
+   shared object hangs below a taxon. *)
+Theorem deepcopy_copied_and_shared_refuted :
+  let h := shared_list_heap in let seeds := ns_seeds h 1 in
+  wf_heap h seeds = true /\ wf_heap2 h = true /\ wf_heap3 h = true /\ wf_heap3s h = true /\ wf_heap4 h = true
+  /\ root_seeds_ok h seeds 0 = true /\ memz 0 (owned_list h) = false
+  /\ conts_private_ok h = true /\ root_ok4 h 0 = true /\ private_ok h seeds 0 = false
+  /\ exists s', run false 6 h 0 (RScoped 1) = Ok (s', R 5)
+       /\ In (4, 6) (sc s') /\ kind_at h 4 = Some KList
+       /\ memz 6 (reach_list (sh s') [5]) = true /\ memz 4 (reach_list (sh s') [5]) = true
+       /\ memz 4 (reach_list h [0]) = true.
+Proof. exact copied_and_shared_refuted_l. Qed.
+Print Assumptions deepcopy_copied_and_shared_refuted.
+
+(* part (c): the `_item_list` of the object's own annotation set is also the value of an attribute; the deep copy
+   copies it generically (2 |-> 6, the copy's attribute) AND rebuilds it (9, the copy's _annotations._item_list),
+   with the same content.  Replayed (t.alias = t.annotations._item_list; c = copy.deepcopy(t): c.alias is not
+   c.annotations._item_list, c.alias == c.annotations._item_list): same.  Not a defect (a private attribute was
+   aliased by the caller). *)
+Theorem deepcopy_container_copied_and_rebuilt_refuted :
+  let h := alias_ilist_heap in
+  wf_heap h [] = true /\ wf_heap2 h = true /\ wf_heap3 h = true /\ wf_heap3s h = true /\ wf_heap4 h = true
+  /\ root_seeds_ok h [] 0 = true /\ memz 0 (owned_list h) = false
+  /\ private_ok h [] 0 = true /\ root_ok4 h 0 = true /\ conts_private_ok h = false
+  /\ exists s', run false 6 h 0 RDeep = Ok (s', R 5)
+       /\ In (2, 6) (sc s') /\ bget (body_of s' 5) (P 101) = Some (R 6)
+       /\ bget (body_of s' 5) NM_ANN = Some (R 8) /\ bget (body_of s' 8) NM_ILIST = Some (R 9)
+       /\ body_of s' 6 = body_of s' 9
+       /\ memz 6 (reach_list (sh s') [5]) = true /\ memz 9 (reach_list (sh s') [5]) = true.
+Proof. exact container_copied_and_rebuilt_refuted_l. Qed.
+Print Assumptions deepcopy_container_copied_and_rebuilt_refuted.
+
+(* WHAT a seeded deep copy shares with its source, as an iff (no privacy hypothesis): an object is reached by both
+   the copy and the source root  iff  it is reachable from a memo seed or an ATOMIC object (StateAlphabet,
+   StateIdentity) that the source root reaches; each such seed / atomic object is reached by the copy as the very
+   same object, corresponds to itself and to nothing else; no atomic object is ever recorded as copied (every object
+   the algorithm allocates has a non-atomic kind: Proofs/C12NoAtom.v).  Closes the atomic-object gap of
+   scoped_shares_exactly_namespace. *)
+Theorem deepcopy_shares_exactly_iff : forall nf h seeds root fuel s' y,
+  wf_heap h seeds = true -> wf_heap2 h = true -> wf_heap3 h = true -> wf_heap3s h = true -> wf_heap4 h = true ->
+  root_seeds_ok h seeds root = true -> memz root (owned_list h) = false ->
+  0 <= root < hlen h -> (length h < fuel)%nat ->
+  run_seeded nf fuel h seeds root = Ok (s', R y) ->
+  (forall o, (reach (sh s') y o /\ reach (sh s') root o) <->
+             (exists b, (In b seeds \/ is_atomic h b = true) /\ reach h root b /\ reach h b o))
+  /\ (forall b, (In b seeds \/ is_atomic h b = true) -> reach h root b ->
+        reach (sh s') y b /\ iso_rel h s' root y b b /\ forall b', iso_rel h s' root y b b' -> b' = b)
+  /\ (forall a b, In (a, b) (sc s') -> is_atomic h a = false).
+Proof. exact shares_exactly_iff_l. Qed.
+Print Assumptions deepcopy_shares_exactly_iff.
+
+(* the taxon-namespace-scoped copy shares EXACTLY what the namespace, its taxa and the atomic objects the source
+   reaches reach: the `iff` that scoped_shares_exactly_namespace stopped short of *)
+Theorem scoped_shares_exactly_namespace_iff : forall nf h root ns fuel s' y,
+  wf_heap h (ns_seeds h ns) = true -> wf_heap2 h = true -> wf_heap3 h = true -> wf_heap3s h = true -> wf_heap4 h = true ->
+  root_seeds_ok h (ns_seeds h ns) root = true -> memz root (owned_list h) = false ->
+  0 <= root < hlen h -> (length h < fuel)%nat ->
+  run nf fuel h root (RScoped ns) = Ok (s', R y) ->
+  (forall o, (reach (sh s') y o /\ reach (sh s') root o) <->
+             (exists b, (In b (ns_seeds h ns) \/ is_atomic h b = true) /\ reach h root b /\ reach h b o))
+  /\ (forall b, is_atomic h b = true -> reach h root b ->
+        reach (sh s') y b /\ iso_rel h s' root y b b /\ forall b', iso_rel h s' root y b b' -> b' = b).
+Proof. exact scoped_shares_iff_l. Qed.
+Print Assumptions scoped_shares_exactly_namespace_iff.
+
+(* tuples, general form of tuple_unchanged_same_content: a recorded tuple all of whose members are UNCHANGED by the
+   copy (immutable values, memo seeds, atomic objects) has a copy of the same class with IDENTICAL content: the same
+   entries, the same value at every index (bget), the same length - the case in which CPython's _deepcopy_tuple
+   returns the very same tuple object (the dumper numbers such a tuple once per side). *)
+Theorem tuple_unchanged_identical : forall nf h seeds root fuel s' y,
+  wf_heap h seeds = true -> wf_heap2 h = true -> wf_heap3 h = true -> root_seeds_ok h seeds root = true ->
+  memz root (owned_list h) = false -> 0 <= root < hlen h -> (length h < fuel)%nat ->
+  run_seeded nf fuel h seeds root = Ok (s', R y) ->
+  forall t t' ot, In (t, t') (sc s') -> hget h t = Some ot -> okind ot = KTuple ->
+    (forall k v, In (k, v) (obody ot) -> match v with P _ => True | R a => In a seeds \/ is_atomic h a = true end) ->
+    exists ot', hget (sh s') t' = Some ot' /\ hlen h <= t' /\ ocls ot' = ocls ot /\ okind ot' = KTuple
+      /\ (forall k v, In (k, v) (obody ot') <-> In (k, v) (obody ot))
+      /\ (forall k, bget (obody ot') k = bget (obody ot) k)
+      /\ length (obody ot') = length (obody ot).
+Proof. exact tuple_unchanged_identical_l. Qed.
+Print Assumptions tuple_unchanged_identical.
+
+(* the RESULT heap (source objects AND every copy) again has exactly-shaped owned annotation sets: the first
+   conjunct of wf_heap4, as a proposition, for (sh s') - so a copy is again in the domain of the isomorphism
+   theorems as far as the per-owner shape goes (every fresh annotable object is a recorded copy: Proofs/C12FreshRec.v;
+   its set is the rebuilt one).  PARTIAL with respect to `wf_heap4 (sh s') = true`: the second conjunct (no two owners
+   of the result heap share a set or container: NoDup (owned_conts (sh s'))) is not derived here - for fresh owners it
+   is Inv3.own_ann / own_cont, for old owners the hypothesis, the mixed case and the boolean form are missing. *)
+Theorem result_heap_annotation_sets_exact_partial : forall nf h seeds root fuel s' y,
+  wf_heap h seeds = true -> wf_heap2 h = true -> wf_heap3 h = true -> wf_heap4 h = true ->
+  memz root (owned_list h) = false -> 0 <= root < hlen h -> (length h < fuel)%nat ->
+  run_seeded nf fuel h seeds root = Ok (s', R y) ->
+  forall x ob, hget (sh s') x = Some ob -> is_annk (okind ob) = true ->
+    match bget (obody ob) NM_ANN with
+    | None => True
+    | Some (P _) => False
+    | Some (R sx) =>
+      exists sxo lx zx l z, hget (sh s') sx = Some sxo
+        /\ bget (obody sxo) NM_ILIST = Some (R lx) /\ bget (obody sxo) NM_ISET = Some (R zx)
+        /\ bget (obody sxo) NM_TARGET = Some (R x) /\ ocls sxo = CLS_ANNSET /\ okind sxo = KAnnSet
+        /\ hget (sh s') lx = Some l /\ hget (sh s') zx = Some z /\ ocls l = CLS_LIST /\ okind l = KList
+        /\ (forall v, In v (values (obody l)) -> exists o, v = R o)
+        /\ ocls z = CLS_SET /\ okind z = KSet /\ obody z = map (fun e => (snd e, PNone)) (obody l)
+    end.
+Proof. exact result_heap_exact_l. Qed.
+Print Assumptions result_heap_annotation_sets_exact_partial.
